@@ -37,7 +37,7 @@ TRUSTED = [
     "extraction: ExtrOcamlBasic only; OCaml driver ocaml/parse_driver.ml + ocaml/common_parse/{spec,show}.ml",
     "correspondence: vp/props/c03.py generators, harness/src/modes/parse.rs (builds the real clap::Command from the case, "
     "prints ArgMatches::ids/value_source/raw occurrences), comparison of the projection "
-    "(outcome class, ArgumentConflict/MissingRequiredArgument kind, explicit id set per level, subcommand chain)",
+    "(outcome class, ArgumentConflict/MissingRequiredArgument kind, explicit id list per level, subcommand chain)",
     "python oracle vp/props/c03.py (independent of the model): relation semantics as documented, three-valued for "
     "global arguments in multi-level results",
 ]
@@ -65,7 +65,7 @@ LEVEL_TEXT = ("Machine-checked theorems (Coq 8.16, closed under the global conte
 LEVEL_NOTE = ("Trusted: Coq kernel, extraction, OCaml driver, Rust harness, generators, python oracle.  Recorded findings: "
               "an overrides list naming a group removes the group's matcher entry but not its members "
               "(C03-override-names-group); a group entry stays present after its last member was overridden "
-              "(C03-stale-group-after-override); theorem C03_group_coherence_refuted.")
+              "(C03-stale-group-after-override); theorems C03_group_coherence_refuted_f1/_f2, C03_members_refuted_f1.")
 
 EXPLICIT = ("cmdline", "env")
 KNOWN_F1 = "C03-override-names-group"
@@ -328,14 +328,12 @@ class Level:
         if self.has_sub and ("subcommand_negates_reqs" in self.cmd["settings"]
                              or "args_conflicts_with_subcommands" in self.cmd["settings"]):
             return fails, live, weak
-        req = {}        # id -> (Kleene "is required", reason)
+        req = collections.OrderedDict()     # id -> [(Kleene "is required", (tag, text, involved ids))]
 
         def add(i, v, why):
             if v is False:
                 return
-            old = req.get(i)
-            if old is None or (old[0] is None and v is True):
-                req[i] = (v, why)
+            req.setdefault(i, []).append((v, why))
 
         for a in self.args.values():
             if "required" in a["flags"]:
@@ -404,35 +402,43 @@ class Level:
                     parts.append(k_not(k_all(P(o) for o in rua)))
                 tag = "r_unless" if not rua else ("r_unless_all" if not ru else "r_unless+all")
                 add(i, k_and(*parts), (tag, "is required unless any of %s / all of %s are present" % (sids(ru), sids(rua)), []))
-        for i, (v, (tag, why, involved)) in sorted(req.items()):
+        for i in sorted(req):
             if i in self.args:
                 absent = k_not(P(i))
-                if absent is False:
-                    if v is True:
-                        live[tag] += 1
-                    continue
                 targets = [i] + self.groups_of.get(i, [])
-                excused = False if tag in self.no_excuse else self.related_present(targets)
-                cond = k_and(v, absent, k_not(excused))
-                if v is True and absent is True:
-                    live[tag] += 1
-                rec(tag, cond, "argument %s %s but is not present, and nothing present excuses it (explicit ids %s)"
-                    % (sid(i), why, sids(sorted(self.explicit))), involved, [i])
+                what = "argument %s" % sid(i)
+                missing = [i]
+                gkey = None
             elif i in self.groups:
-                g = self.groups[i]
-                mem = [m for m in g["args"] if m in self.args]
+                mem = [m for m in self.groups[i]["args"] if m in self.args]
                 absent = k_not(P(i))
-                if absent is False:
-                    if v is True:
-                        live[tag] += 1
-                    continue
                 targets = [i] + mem + [h for m in mem for h in self.groups_of.get(m, [])]
-                excused = False if "group" in self.no_excuse else self.related_present(targets)
-                if v is True and absent is True:
+                what = "group %s (members %s)" % (sid(i), sids(mem))
+                missing = mem
+                gkey = "group"
+            else:
+                continue
+            excused = None
+            done = set()
+            for v, (tag, why, involved) in req[i]:
+                if tag in done:
+                    continue
+                if v is True and absent is not None:
                     live[tag] += 1
-                rec(tag, k_and(v, absent, k_not(excused)),
-                    "group %s %s but none of its members %s is present, and nothing present excuses it (explicit ids %s)"
-                    % (sid(i), why, sids(mem), sids(sorted(self.explicit))), involved, mem)
+                    done.add(tag)
+                if absent is False:
+                    continue
+                if tag in self.no_excuse or gkey in self.no_excuse:
+                    ex = False
+                else:
+                    if excused is None:
+                        excused = (self.related_present(targets),)
+                    ex = excused[0]
+                cond = k_and(v, absent, k_not(ex))
+                rec(tag, cond, "%s %s but is not present, and nothing present excuses it (explicit ids %s)"
+                    % (what, why, sids(sorted(self.explicit))), involved, missing)
+                if cond is True:
+                    break
         return fails, live, weak
 
     # families of the recorded findings (observable on the definition + output of this level) -----
@@ -594,15 +600,28 @@ def project(r):
     k = p["kind"]
     if k == "ok":
         lv = levels(p["m"])
-        seen = collections.Counter()
-        for ents, _ in lv:
-            for i in {e["id"] for e in ents}:
-                seen[i] += 1
+        # Entries copied across levels by the propagation of global values are identical at every level
+        # (or print as `?` where the implementation cannot report them): an entry is left out, on both
+        # sides, when another level has the same id with the same content or with `?`.  Same-named
+        # distinct args of different levels (different content) are compared normally.
+        def content(e):
+            return (e["src"], tuple(e["idx"]), tuple(tuple(g) for g in e["occ"]))
+        per_id = collections.defaultdict(list)
+        for li, (ents, _) in enumerate(lv):
+            for e in ents:
+                per_id[e["id"]].append((li, e["src"], content(e)))
+        def copied(li, e):
+            if e["src"] == "?":
+                return True
+            for lj, src, cont in per_id[e["id"]]:
+                if lj != li and (src == "?" or cont == content(e)):
+                    return True
+            return False
         out = []
-        for ents, sub in lv:
-            # ids with an entry at several levels are propagated global values (or `?` entries): the
-            # implementation cannot report their source everywhere, so they are left out on both sides
-            ids = sorted({hexs(e["id"]) for e in ents if e["src"] in EXPLICIT and seen[e["id"]] == 1})
+        for li, (ents, sub) in enumerate(lv):
+            # a sorted LIST (duplicates kept): the implementation's FlatMap cannot hold a key twice, so a
+            # duplicate key in the model's list encoding would show up as a difference
+            ids = sorted(hexs(e["id"]) for e in ents if e["src"] in EXPLICIT and not copied(li, e))
             out.append("[%s]%s" % (" ".join(ids), "" if sub is None else " > " + hexs(sub)))
         return "ok " + " ".join(out)
     if k == "err":
@@ -644,12 +663,18 @@ def _mk_opt(rng, aid, long_, short, envname):
 
 def _relations(rng, own, arg_targets, groups, stats, allow_required=True):
     """decorate the non-global arguments `own` with relations over arg_targets (ids) and groups"""
-    gids = [g["id"] for g in groups]
-
-    def others(a, with_groups=True, k=1):
+    def others(a, with_groups=True, k=1, clean=False):
         pool = [t for t in arg_targets if t != a["id"]]
-        if with_groups and gids and chance(rng, 0.3):
-            pool = gids
+        gpool = [g["id"] for g in groups if a["id"] not in g["args"]]      # not its own group (degenerate)
+        if with_groups and gpool and chance(rng, 0.3):
+            pool = gpool
+        if clean and chance(rng, 0.8):
+            # mostly avoid contradictory declarations (required-if something it conflicts with / overrides)
+            bad = set((a.get("conflicts") or []) + (a.get("overrides") or []))
+            for g in groups:
+                if g["id"] in bad:
+                    bad |= set(g["args"])
+            pool = [t for t in pool if t not in bad] or pool
         if not pool:
             return []
         return list(dict.fromkeys(pick(rng, pool) for _ in range(k)))
@@ -664,8 +689,8 @@ def _relations(rng, own, arg_targets, groups, stats, allow_required=True):
                 a["conflicts"] = t
         if chance(rng, 0.2) and not pos:
             t = others(a, with_groups=False)
-            if gids and chance(rng, 0.04):
-                t = [pick(rng, gids)]
+            if groups and chance(rng, 0.04):
+                t = [pick(rng, groups)["id"]]
                 stats["rel"]["overrides->group"] += 1
             if t:
                 a["overrides"] = t
@@ -683,19 +708,22 @@ def _relations(rng, own, arg_targets, groups, stats, allow_required=True):
                         a["requires_if"].append((pick(rng, POOL), t2[0]))
         if "required" in a["flags"]:
             continue
-        valued = [x for x in arg_targets if x != a["id"]]
         r = rng.random()
+
+        def pairs(k):
+            return [(t, pick(rng, POOL)) for _ in range(k) for t in others(a, with_groups=False, clean=True)]
+
         if r < 0.12:
-            a["r_if"] = [(pick(rng, valued), pick(rng, POOL)) for _ in range(pick(rng, [1, 1, 2]))] if valued else []
+            a["r_if"] = pairs(pick(rng, [1, 1, 2]))
         elif r < 0.22:
-            a["r_if_all"] = [(pick(rng, valued), pick(rng, POOL)) for _ in range(pick(rng, [1, 2, 2, 3]))] if valued else []
+            a["r_if_all"] = pairs(pick(rng, [1, 2, 2, 3]))
         elif r < 0.34:
-            a["r_unless"] = others(a, k=pick(rng, [1, 1, 2]))
+            a["r_unless"] = others(a, k=pick(rng, [1, 1, 2]), clean=True)
         elif r < 0.44:
-            a["r_unless_all"] = others(a, k=pick(rng, [1, 2, 2, 3]))
+            a["r_unless_all"] = others(a, k=pick(rng, [1, 2, 2, 3]), clean=True)
         elif r < 0.48:
-            a["r_unless"] = others(a, k=pick(rng, [1, 2]))
-            a["r_unless_all"] = others(a, k=pick(rng, [2, 3]))
+            a["r_unless"] = others(a, k=pick(rng, [1, 2]), clean=True)
+            a["r_unless_all"] = others(a, k=pick(rng, [2, 3]), clean=True)
         elif r < 0.60 and allow_required and not pos:
             a["flags"].add("required")
         if chance(rng, 0.06) and not pos:
@@ -715,17 +743,17 @@ def _groups(rng, prefix, arg_ids, n):
             g["required"] = True
         out.append(g)
     for g in out:
-        tg = [i for i in arg_ids if i not in g["args"]] or arg_ids
-        og = [h["id"] for h in out if h is not g]
-        if chance(rng, 0.3):
-            g["conflicts"] = [pick(rng, og) if og and chance(rng, 0.3) else pick(rng, tg)]
-        if chance(rng, 0.3):
-            g["requires"] = [pick(rng, og) if og and chance(rng, 0.3) else pick(rng, tg)]
+        tg = [i for i in arg_ids if i not in g["args"]]
+        og = [h["id"] for h in out if h is not g and not (set(h["args"]) & set(g["args"]))]
+        if chance(rng, 0.3) and (tg or og):      # never against an own member (degenerate: the member conflicts with itself)
+            g["conflicts"] = [pick(rng, og) if og and (not tg or chance(rng, 0.3)) else pick(rng, tg)]
+        if chance(rng, 0.3) and (tg or og):
+            g["requires"] = [pick(rng, og) if og and (not tg or chance(rng, 0.3)) else pick(rng, tg)]
     return out
 
 
 def new_stats():
-    return {"commands": 0, "cases": 0, "rel": collections.Counter(), "commands_with": collections.Counter(),
+    return {"commands": 0, "cases": 0, "rel": collections.Counter(), "levels_with": collections.Counter(),
             "settings": collections.Counter(), "args_per_level": collections.Counter(),
             "groups_per_level": collections.Counter(), "argv_len": collections.Counter(),
             "argv_plan": collections.Counter()}
@@ -762,7 +790,7 @@ def _count_cmd(c, stats):
         if not g.get("multiple"):
             seen.add("group:non-multiple")
     for k in seen:
-        stats["commands_with"][k] += 1
+        stats["levels_with"][k] += 1
     for s in c["settings"]:
         stats["settings"][s] += 1
     for s in c["subs"]:
@@ -850,10 +878,25 @@ def plan_level(rng, cmd, inherited, satisfy, has_sub):
     proto = Level(cmd, inherited, [], has_sub, False)
     args = proto.args
     forced = {i: a["env"][1] for i, a in args.items() if a.get("env") and a["env"][1] is not None}
+    # values that some value test of the level names for an argument (so that Equals predicates fire)
+    tested = collections.defaultdict(list)
+    for a in args.values():
+        for val, _x in a.get("requires_if") or []:
+            tested[a["id"]].append(val)
+        for o, val in (a.get("r_if") or []) + (a.get("r_if_all") or []):
+            tested[o].append(val)
+
+    def value(a):
+        t = tested.get(a["id"])
+        if t and chance(rng, 0.6):
+            v = pick(rng, t)
+            return v.upper() if "icase" in a["flags"] and chance(rng, 0.3) else v
+        return _value_for(rng, a)
+
     chosen = {}
     for i, a in args.items():
         if chance(rng, 0.4):
-            chosen[i] = None if a.get("action") == "settrue" else _value_for(rng, a)
+            chosen[i] = None if a.get("action") == "settrue" else value(a)
     if not satisfy:
         return chosen
 
@@ -876,7 +919,7 @@ def plan_level(rng, cmd, inherited, satisfy, has_sub):
         addable = [i for i in missing if i in args]
         if addable and (not removable or chance(rng, 0.65)):
             i = pick(rng, addable)
-            chosen[i] = None if args[i].get("action") == "settrue" else _value_for(rng, args[i])
+            chosen[i] = None if args[i].get("action") == "settrue" else value(args[i])
         elif removable:
             del chosen[pick(rng, removable)]
         else:
